@@ -6,6 +6,7 @@ import (
 	"go/constant"
 	"go/token"
 	"go/types"
+	"reflect"
 	"sort"
 	"strings"
 
@@ -149,6 +150,7 @@ func c14(r *core.Run) {
 	c14Reserved(r, constructors)
 	c14Escape(r)
 	c14Adapter(r)
+	c14Tags(r)
 }
 
 func c14Spec(r *core.Run, l litSite) {
@@ -837,4 +839,73 @@ func c14Adapter(r *core.Run) {
 		}
 	}
 	r.Floor("C14.ADAPTER", "appends to the mount list handed to the sandbox manager", n, 1)
+}
+
+// c14Tags: the specification reaches the runtime as JSON; a field the runtime never sees is a restriction that is
+// not applied. The OCI runtime specification names every member by the lower-camel form of the Go field name, and
+// the types of the sandbox package follow it: every exported field of a spec type carries the json tag
+// lowerFirst(FieldName) (acronym fields such as UID/GID/CPU/ID are lower-cased as a whole).
+func c14Tags(r *core.Run) {
+	p := r.P
+	sp := sandboxPath(p)
+	n := 0
+	for _, pkg := range p.Prod {
+		if pkg.PkgPath != sp {
+			continue
+		}
+		scope := pkg.Types.Scope()
+		for _, name := range scope.Names() {
+			tn, ok := scope.Lookup(name).(*types.TypeName)
+			if !ok {
+				continue
+			}
+			st, ok := tn.Type().Underlying().(*types.Struct)
+			if !ok {
+				continue
+			}
+			tagged := false
+			for i := 0; i < st.NumFields(); i++ {
+				if strings.Contains(st.Tag(i), "json:") {
+					tagged = true
+				}
+			}
+			if !tagged || name == "Config" {
+				continue
+			}
+			for i := 0; i < st.NumFields(); i++ {
+				f := st.Field(i)
+				if !f.Exported() {
+					continue
+				}
+				tag := reflect.StructTag(st.Tag(i)).Get("json")
+				tag = strings.Split(tag, ",")[0]
+				want := lowerCamel(f.Name())
+				if name == "Spec" && f.Name() == "Version" {
+					want = "ociVersion" // the one member the runtime specification does not name after its Go field
+				}
+				n++
+				r.Check(tag == want, "C14.TAGS", "sandbox."+name+"."+f.Name()+"#json-name", f.Pos(), "serialised as "+want, "field "+name+"."+f.Name()+" is serialised as \""+tag+"\" but the runtime specification calls it \""+want+"\": the runtime never sees the member, so the restriction it carries (no new privileges, read-only root, limits …) is not applied")
+			}
+		}
+	}
+	r.Floor("C14.TAGS", "tagged fields of the specification types", n, 20)
+}
+
+func lowerCamel(s string) string {
+	// leading run of capitals: lower all of it if the whole word is capitals (UID), otherwise all but the last
+	// capital (CPUShares → cpuShares, NoNewPrivileges → noNewPrivileges)
+	i := 0
+	for i < len(s) && s[i] >= 'A' && s[i] <= 'Z' {
+		i++
+	}
+	switch {
+	case i == 0:
+		return s
+	case i == len(s):
+		return strings.ToLower(s)
+	case i == 1:
+		return strings.ToLower(s[:1]) + s[1:]
+	default:
+		return strings.ToLower(s[:i-1]) + s[i-1:]
+	}
 }
